@@ -51,6 +51,9 @@ pub enum Body {
   /// as SimpleStream, but the first datagram carries a payload that cannot be decoded: the stream reports the
   /// error and must still be woken for the good sample behind it
   SimpleStreamBadThenGood,
+  /// the same for the DataReader streams (with SampleInfo / bare)
+  SampleStreamBadThenGood,
+  BareStreamBadThenGood,
   /// DataReaderStream (with SampleInfo) vs two DATA datagrams
   SampleStream,
   /// BareDataReaderStream vs two DATA datagrams
@@ -176,7 +179,8 @@ fn reader_body(body: Body, prefix: &[usize]) -> RunResult {
     sub, reader_eid, topic, q.clone(), notification_rx, topic_cache.clone(), disc_tx, status_rx, command_tx, waker, event_source,
   )
   .unwrap();
-  let expected: usize = if body == Body::SimpleStreamBadThenGood { 1 } else { 2 };
+  let bad_then_good = matches!(body, Body::SimpleStreamBadThenGood | Body::SampleStreamBadThenGood | Body::BareStreamBadThenGood);
+  let expected: usize = if bad_then_good { 1 } else { 2 };
   let sched = Sched::new(2);
   let got = Arc::new(AtomicUsize::new(0));
   let parks = Arc::new(AtomicUsize::new(0));
@@ -216,7 +220,7 @@ fn reader_body(body: Body, prefix: &[usize]) -> RunResult {
                 sched::point("APP.got_one");
               }
               // the undecodable change is reported (once); the consumer goes on
-              Poll::Ready(Some(Err(_))) if body == Body::SimpleStreamBadThenGood => sched::point("APP.got_error"),
+              Poll::Ready(Some(Err(_))) if bad_then_good => sched::point("APP.got_error"),
               Poll::Ready(_) => panic!("MACHINERY unexpected stream result"),
               Poll::Pending => park(&fw),
             }
@@ -224,7 +228,7 @@ fn reader_body(body: Body, prefix: &[usize]) -> RunResult {
         }
         drop(sdr);
       }
-      Body::SampleStream => {
+      Body::SampleStream | Body::SampleStreamBadThenGood => {
         let dr = DataReader::from_simple_data_reader(sdr);
         let mut stream = dr.async_sample_stream();
         while g.load(Ordering::SeqCst) < expected {
@@ -233,13 +237,14 @@ fn reader_body(body: Body, prefix: &[usize]) -> RunResult {
               g.fetch_add(1, Ordering::SeqCst);
               sched::point("APP.got_one");
             }
+            Poll::Ready(Some(Err(_))) if bad_then_good => sched::point("APP.got_error"),
             Poll::Ready(_) => panic!("MACHINERY unexpected stream result"),
             Poll::Pending => park(&fw),
           }
         }
         drop(stream);
       }
-      Body::BareStream => {
+      Body::BareStream | Body::BareStreamBadThenGood => {
         let dr = DataReader::from_simple_data_reader(sdr);
         let mut stream = dr.async_bare_sample_stream();
         while g.load(Ordering::SeqCst) < expected {
@@ -248,6 +253,7 @@ fn reader_body(body: Body, prefix: &[usize]) -> RunResult {
               g.fetch_add(1, Ordering::SeqCst);
               sched::point("APP.got_one");
             }
+            Poll::Ready(Some(Err(_))) if bad_then_good => sched::point("APP.got_error"),
             Poll::Ready(_) => panic!("MACHINERY unexpected stream result"),
             Poll::Pending => park(&fw),
           }
@@ -336,7 +342,7 @@ fn reader_body(body: Body, prefix: &[usize]) -> RunResult {
     let data = |sn: i64| wire::data_msg(&wire::cc_data(wg, sn, Msg::new(1, sn as u32, 0).cdr()), rid, None);
     let datagrams: Vec<Vec<u8>> = match body {
       Body::Mio06 | Body::Mio08 | Body::Mio06SecondReader => vec![data(1), data(3), wire::gap_msg(wg, rid, 2, 3, &[])],
-      Body::SimpleStreamBadThenGood => vec![wire::data_msg(&wire::cc_data(wg, 1, vec![1, 2]), rid, None), data(2)],
+      Body::SimpleStreamBadThenGood | Body::SampleStreamBadThenGood | Body::BareStreamBadThenGood => vec![wire::data_msg(&wire::cc_data(wg, 1, vec![1, 2]), rid, None), data(2)],
       _ => vec![data(1), data(2)],
     };
     for d in datagrams {
